@@ -41,6 +41,10 @@ def cnf_vectors(ctx, targets):
             ("PosT", 3, 16 if ctx.quick else 2, "<= 3 clauses with repeated / complementary literals and an empty clause")]
     if not ctx.quick:
         fams.append(("Pos4", 4, 32, "<= 4 clauses of width <= 2 over 4 variables"))
+    elif "bdd" in targets:
+        # a sample of the 4-variable family in the quick tier too: conditioning slips that need a complemented node shared by two parents
+        # above the conditioned variable only exist from 4 variables on
+        fams.append(("Pos4", 4, 160, "<= 4 clauses of width <= 2 over 4 variables (sample)"))
     if targets == ["topdown"]:
         fams = [(f, nv, s * (2 if ctx.quick else 1), w) for f, nv, s, w in fams]
     for fam, nv, sample, what in fams:
